@@ -1482,6 +1482,12 @@ class EvolveAppTask(BaseEvolutionTask):
                     else:
                         imports.add(import_str)
 
+        if any('models.' in mutation_line
+               for mutation_line in mutation_lines):
+            # One or more mutations reference something in django.db.models
+            # (a field type, Q, F, an index, or a constraint).
+            imports.add('from django.db import models')
+
         imports.add('from django_evolution.mutations import %s'
                     % ', '.join(sorted(mutation_types)))
 
